@@ -1731,7 +1731,12 @@ func (h *fsHandler) compressFileNolock(
 	// goroutine.
 	// It is safe opening such a file, since the file creation
 	// is guarded by file mutex - see getFileLock call.
-	if _, err := os.Stat(compressedFilePath); err == nil {
+	//
+	// A copy found here may also be a leftover of an earlier lookup (with
+	// CompressRoot set it is never seen by openFSFile's staleness check):
+	// it is used only if it isn't older than the file it was made from.
+	if fi, err := os.Stat(compressedFilePath); err == nil &&
+		fileInfo.ModTime().Sub(fi.ModTime()) < time.Second {
 		_ = f.Close()
 		return h.newCompressedFSFile(compressedFilePath, fileEncoding)
 	}
